@@ -11,7 +11,7 @@ LEVEL = "proof"
 PROPS = "Image/Props_C04.v"
 COQ_FILES = ["Lib/SortSearch.v", "Image/PathTree.v", "Image/PathTreeProofs.v", "Image/PathMap.v", "Image/Fill.v", "Image/Overlay.v",
              "Image/ImageCases.v", "Image/ViewEq.v", "Image/Witnesses.v", "Image/FillProofs.v", "Image/FoldProofs.v", "Image/Bounded.v",
-             "Image/BoundedProofs.v", "Image/DomainP.v", "Image/ViewProofs.v", "Image/PruneProofs.v", "Image/ListingProofs.v", "Image/ContentProofs.v", "Image/Props_C04.v"]
+             "Image/BoundedProofs.v", "Image/DomainP.v", "Image/ViewProofs.v", "Image/PruneProofs.v", "Image/ListingProofs.v", "Image/ContentProofs.v", "Image/RequirerProofs.v", "Image/Props_C04.v"]
 PT_CORR = "pathtree.Node Insert/Get/GetChildren/Remove/Walk (Go) vs Image.PathTree trie (Coq, vm_compute); oracle: Image.PathMap finite map"
 CORR = ("image.FromV1Image + ChainLayer.FS Stat/Open+Read/ReadDir/fs.WalkDir (Go) vs Image.Fill load/stat/read/readdir/walk_fs "
         "(Coq, vm_compute)")
@@ -32,11 +32,14 @@ META = {
                   "ReadDir of every existing path lists exactly the overlay's children (view_listing_eq_overlay_on_Dp_unpruned; with the "
                   "default requirer for FromV1Image itself in every view: view_listing_eq_overlay_on_Dp); a regular file of the overlay "
                   "is read back with the overlay's content before the final pruning (view_content_eq_overlay_on_Dp_unpruned_partial, "
-                  "on Dp and Dc). "
+                  "on Dp and Dc); under ANY requirer, images without links, the non-directory entries of the last view are exactly the "
+                  "overlay's entries the requirer accepts and nothing else appears (requirer_only_removes_nonrequired_on_Dp; "
+                  "directories: unchanged or gone); for images WITH links the accepted non-directory entries of the last view are kept "
+                  "and values only disappear (last_view_with_links_on_Dp_partial). "
                   "(3) view_eq_overlay_on_D_bounded_partial: lookups and listings for every image of two small-scope families (with "
                   "links and implicit parents) by vm_compute. (4) structural lemmas for all images (view_is_fold_of_fills, "
                   "fill_never_overwrites, ...). ORACLE-CHECKED ONLY (not proved): everything in D / D_weak outside Dp and the bounded "
-                  "families (symbolic links, implicit parents), WalkDir equality, content after the final pruning, the last view under a path "
+                  "families (symbolic links, implicit parents), WalkDir equality, content after the final pruning, which directories vanish under a path "
                   "requirer, the squashed unpack. REFUTED on the current code by machine-checked witnesses replayed on every run: "
                   "opaque whiteouts, delete+re-create in one layer and across layers, absolute names, implicit-parent modes, nested "
                   "directory vanishing after whiteout, requirer deleting content of earlier views, order-dependent pruning; two defects "
